@@ -13,6 +13,7 @@ mod glue;
 mod oracle;
 mod procdrv;
 mod runner;
+mod search;
 
 use runner::{Ctx, Tier};
 use serde_json::Value;
